@@ -61,6 +61,47 @@ def _oracle(ctx, area, n, label):
                                    "replay": ctx._write_replay(rep), "concrete": True})
 
 
+class _Tagger:
+    """Classifies every line of the quadtree stream by its role in its history (the distribution goes into the
+    evidence as `tags`): what the generator actually produced, judged from the lines alone."""
+
+    def __init__(self):
+        self.rect = {}
+        self.stored = {}
+
+    def __call__(self, l, o):
+        w = l.split()
+        if not w:
+            return None
+        if w[0] == "reset":
+            self.rect, self.stored = {}, {}
+            return "reset " + " ".join(w[1:])
+        if o == "contract":
+            return "contract-skip"
+        if w[0] in ("ins", "rm") and len(w) == 6:
+            i, r = w[1], tuple(w[2:])
+            moved = i in self.rect and self.rect[i] != r
+            self.rect[i] = r
+            have = self.stored.get(i, 0)
+            if w[0] == "ins":
+                if r[2].startswith("-") or r[3].startswith("-") or r[2] in ("0", "0/1") or r[3] in ("0", "0/1"):
+                    return "ins empty-bounds"
+                self.stored[i] = have + 1
+                if moved:
+                    return "ins same-object-new-bounds"
+                return "ins duplicate-of-stored" if have else "ins"
+            if have:
+                self.stored[i] = have - 1
+                return "rm one-of-duplicates" if have > 1 else "rm"
+            return "rm absent-new-bounds" if moved else "rm absent"
+        if w[0] == "clear":
+            self.stored = {}
+        if w[0] == "probe":
+            hits = o.split()[1::2]
+            return "probe all-empty" if all(h == "-" for h in hits) else "probe"
+        return w[0]
+
+
 def run(ctx):
     ctx.modelled += [
         "a stored node is (id, rect): identity is Go's comparable pointer, Bounds() is constant while stored "
@@ -124,7 +165,7 @@ def run(ctx):
     ctx.harness("./cmd/c07")
     ctx.diff(area="quadtree", driver="drv_c07", n={"quick": 150000, "thorough": 3000000}, stateful=True, timeout=300,
              trivial=lambda l, o: o == "ok",
-             tagger=lambda l, o: l.split()[0] if not l.startswith("reset") else "reset " + " ".join(l.split()[1:]),
+             tagger=_Tagger(),
              theorem="C07.abs_run / size_run / find_eq_filter / bool_iff_find_nonempty (model = linear scan); "
                      "impl != model on this history")
     _oracle(ctx, "floatscan", {"quick": 6000, "thorough": 300000},
